@@ -6,6 +6,7 @@ CONSTANTS
   CtxTerm = TRUE
   DupTerm = TRUE
   ParentKill = TRUE
+  ClearFirst = FALSE
 INVARIANT TypeOK
 INVARIANT Inv_Reaped
 INVARIANT Inv_ParentsKnow
